@@ -333,4 +333,35 @@ theorem asFound_committed_accepted_again :
     ((Fifo.receive (Fifo.update {} (Fifo.receive {} 7).1 [7]) 7).1.txs) = [] := by decide
 
 
+/-! ### capacity: a refusal for lack of room happens only at the limit -/
+
+/-- Q1: `addWaiting` answers "queue is full" only when the waiting queues - counted over EVERY
+    account, as the pool's size is defined - hold at least `waitingLimit` transactions -/
+theorem full_only_at_the_limit (cfg : Pool.Cfg) (p : Pool.Pool) (t : Pool.Tx)
+    (h : (Pool.addWaiting cfg p t).2 = .full) : p.waitingLimit ≤ Pool.mCount p.waiting := by
+  unfold Pool.addWaiting at h
+  by_cases hc : Pool.mCount p.waiting ≥ p.waitingLimit
+  · exact hc
+  · simp only [hc, if_false] at h
+    split at h <;> simp at h
+
+/-- Q2: hence a submission is refused as full only by a pool at its limit ("never drops an
+    executable transaction while below its capacity", the refusal side) -/
+theorem submit_refuses_as_full_only_at_the_limit (cfg : Pool.Cfg) (p : Pool.Pool) (t : Pool.Tx)
+    (h : (Pool.submit cfg p t).2 = .full) : p.waitingLimit ≤ Pool.mCount p.waiting := by
+  unfold Pool.submit at h
+  split at h
+  · simp at h
+  · split at h
+    · simp at h
+    · split at h
+      · simp at h
+      · rcases hr : Pool.addWaiting cfg p t with ⟨p1, r⟩
+        rw [hr] at h
+        cases r <;> simp at h
+        exact full_only_at_the_limit cfg p t (by rw [hr])
+
+example : (Pool.addWaiting {} { waitingLimit := 1, waiting := fun a => if a = 0 then [⟨1, 0, 5⟩] else [] } ⟨2, 1, 7⟩).2 = .full := by
+  decide
+
 end AnnVerif.C19
